@@ -262,10 +262,52 @@ func genTrackComps(r *Rng, k int, wellFormed bool) trackComps {
 	return c
 }
 
+// is the track text this wire input decodes to plain ASCII? (the model of the track parsers counts bytes where the
+// library's regular expressions count runes and trims ASCII white space only: non-ASCII text is outside the modelled domain)
+func trackWireASCII(k int, p *Sx, data []byte) bool {
+	sp := trackField(k, p).Spec()
+	n, read, err := sp.Pref.DecodeLength(sp.Length, data)
+	if err != nil || read > len(data) || n < 0 {
+		return true // rejected before any track text exists
+	}
+	raw, _, err := sp.Enc.Decode(data[read:], n)
+	if err != nil {
+		return true
+	}
+	for _, b := range raw {
+		if b >= 0x80 {
+			return false
+		}
+	}
+	return true
+}
+
+func asciiOnly(b []byte) bool {
+	for _, c := range b {
+		if c >= 0x80 {
+			return false
+		}
+	}
+	return true
+}
+
 func init() {
 	executors["trk"] = func(a []*Sx) string { return strings.Join(runTrk(a), " | ") }
 
-	generators["trk"] = func(r *Rng, tier string, emit func(*Sx)) {
+	generators["trk"] = func(r *Rng, tier string, emit0 func(*Sx)) {
+		// only cases whose wire inputs decode to ASCII track text are in the modelled domain
+		emit := func(c *Sx) {
+			k, p := c.List[1].Int(), c.List[2]
+			for _, o := range c.List[3].List {
+				if o.Head() == "unpack" && !trackWireASCII(k, p, o.List[1].Hex()) {
+					return
+				}
+				if o.Head() == "setbytes" && !asciiOnly(o.List[1].Hex()) {
+					return
+				}
+			}
+			emit0(c)
+		}
 		n := 400
 		if tier == "thorough" {
 			n = 8000
@@ -308,6 +350,13 @@ func init() {
 							emit(L(A("trk"), I(k), p, L(op("unpack", X(packed)), op("get"), op("unpack", X(empty)), op("get"), op("pack"))))
 						}
 					}
+				}
+				if packer == "T2" {
+					// discretionary data made of the pad character only: the field's own unpadding eats it, the packed
+					// value no longer parses as a track, and the Describe filter has nothing to take apart (F31)
+					c3 := genTrackComps(r, k, true)
+					c3.dd = strings.Repeat(string(padB), 1+r.Intn(3))
+					emit(L(A("trk"), I(k), p, L(c3.op(), op("get"), op("filter"), op("str"), op("pack"))))
 				}
 				s, _ := f.String()
 				emit(L(A("trk"), I(k), p, L(op("setbytes", X([]byte(s))), op("get"), op("str"))))
